@@ -14,7 +14,10 @@ def clsSum (p x y : Nat) : String :=
 def clsProd (p x y : Nat) : String :=
   let r := x * y % p
   if x = 0 || y = 0 then "zero" else if r = 0 then "prod≡0" else if r = 1 then "prod≡1" else if r + 1 = p then "prod≡p-1"
-  else if x + 1 = p || y + 1 = p then "p-1" else if x = 1 || y = 1 then "one" else "generic"
+  else if x + 1 = p || y + 1 = p then "p-1" else if x = 1 || y = 1 then "one"
+  -- worst case of a high-word quotient estimate: both operands in the top eighth, remainder within 64 of 0 or of p
+  else if 8 * x ≥ 7 * p && 8 * y ≥ 7 * p && (r < 64 || r + 64 ≥ p) then (if r < 64 then "top-operands:rem<64" else "top-operands:rem>p-64")
+  else "generic"
 
 def hAddmod : List Int → Option Verdict
   | [w, cm, x, y] => do
